@@ -61,9 +61,20 @@ def r1_1(ctx):
                           {"sources": sorted(src), "target": tgt})
     # who-may-write
     reach = sim_reach(ctx, precise=not ctx.thorough)
+    # a store whose receiver has no static type (a helper parameter, a mixed loop variable) is classified by the objects it is
+    # seen with when check_state is interpreted: `resource.state = FREE` on workers and facilities is not a task-state writer
+    dyn = {}
+    for target in ("READY", "WORKING", "FINISHED"):
+        I = mk_interp(ctx, inline=lambda call, callee, depth: callee.cls == WORKFLOW, max_depth=3)
+        for st, ex in I.run_function(ctx.repo.method(WORKFLOW, "check_state"), bind={"state": E(TS, target), "time": Poly.sym("t"), "__defaults__": True}):
+            for e in stores_of(st.trace, attr="state"):
+                dyn.setdefault(id(e.node), set()).add(e.cls if e.cls is not None else (e.recv.cls if isinstance(e.recv, Obj) else None))
     n = 0
     for f in reach:
         for ef in ctx.eff.of(f):
+            if ef.kind in ("store", "mut", "del") and ef.attr == "state" and ef.cls is None and id(ef.node) in dyn \
+                    and all(c is not None and not is_subclass(ctx, c, TASK) for c in dyn[id(ef.node)]):
+                continue
             if ef.kind in ("store", "mut", "del") and ef.attr == "state" and (ef.cls is None or is_subclass(ctx, ef.cls, TASK)):
                 n += 1
                 con = construct(f, "task-state-writer")
